@@ -611,6 +611,9 @@ def gen_points(spec, np_, rates, rng, thorough, large=1e3):
             for p, r, k in zip(ex, rates, ks):
                 p.phi = k * PI / 4 if r == 'half' else k * PI / 2
         pts.append(('halfpi', vals, ex))
+    # one full turn and a bit, alternating signs (deterministic: a reduction of the angle
+    # modulo 2 pi - instead of 4 pi for half-angle gates - shows here on every run)
+    pts.append(('wrap', [(2 * PI + 0.7) * (1 if i % 2 == 0 else -1) for i in range(np_)], None))
     # large
     for _ in range(2 * mult):
         pts.append(('large', [rng.uniform(-large, large) for _ in range(np_)], None))
